@@ -1016,7 +1016,7 @@ Section RetryProofs.
     length (started_calls r) =
     (length (log r) + match ph r with PCalling _ => 1 | _ => 0 end)%nat.
   Proof.
-    unfold started_calls. rewrite app_length, map_length, rev_length.
+    unfold started_calls, rev'. rewrite <- rev_alt, app_length, map_length, rev_length.
     destruct (ph r); reflexivity.
   Qed.
 
